@@ -1,11 +1,11 @@
 package rules
 
 import (
-	"strings"
 	"fmt"
 	"go/token"
 	"go/types"
 	"sort"
+	"strings"
 
 	"golang.org/x/tools/go/ssa"
 
